@@ -33,8 +33,9 @@ Hdr(h) == HdrI(4660, h)
 
 NCx == { <<>>, <<0>>, <<1, 97>>, <<1, 65>>, <<192, 12>>, <<192, 14>>, <<64>>, <<192>> }
 NCy == IF Big THEN NCx ELSE { <<>>, <<0>>, <<192, 12>> }
-QFix == { <<0, 1, 0, 1>>, <<0, 252, 0, 1>>, <<0, 1, 0>>, <<>> }
-         \cup (IF Big THEN { <<0, 251, 0, 1>>, <<0, 1, 0, 3>> } ELSE {})
+\* (the cut and the absent tail are prefixes of the complete ones)
+QFix == { <<0, 1, 0, 1>>, <<0, 252, 0, 1>> }
+         \cup (IF Big THEN { <<0, 1, 0>>, <<>>, <<0, 251, 0, 1>>, <<0, 1, 0, 3>> } ELSE {})
 
 \* <<flags, qd, an, ns, ar>>: query, response, response with an answer count,
 \* header-only error, response without question, two questions, 65535
